@@ -142,9 +142,16 @@ impl StateSpace for SO2StateSpace {
 
     /// Checks if a state is within the defined angular bounds.
     fn satisfies_bounds(&self, state: &Self::StateType) -> bool {
-        let val = state.clone().normalise().value;
+        // An angle already in [-pi, pi] is compared as it is (normalising it costs an ulp, enough to
+        // push a state sitting on a bound outside); -pi and pi are the same configuration.
+        let val = if (-PI..=PI).contains(&state.value) {
+            state.value
+        } else {
+            state.clone().normalise().value
+        };
         let (lower, upper) = self.bounds;
-        val >= lower && val <= upper
+        let inside = |angle: f64| angle >= lower && angle <= upper;
+        inside(val) || (val == -PI && inside(PI)) || (val == PI && inside(-PI))
     }
 
     /// Generates a random angle from within the defined bounds.
